@@ -132,6 +132,8 @@ Definition ptt_unmasked (m n : Z) (dxr dxc : S) (k i j : Z) : S :=
   if k =? 0 then k1
   else if k =? 1 then (zs (i - m / 2) * dxr)%K
   else (- zs (j - n / 2) * dxc)%K.
+(* the OPD ramp of Tilt(x=a, y=b) in the scalar structure, at plane coordinates (X, Y) *)
+Definition ramp_s (a b dxr dxc : S) (X Y : Z) : S := (a * (zs X * dxr) - b * (zs Y * dxc))%K.
 Definition ptt_masked (m n : Z) (dxr dxc : S) (mask : arr S) (k i j : Z) : S :=
   (ptt_unmasked m n dxr dxc k i j * get mask i j)%K.
 (* einsum('ij,i->j', ptt_vector[1:3], t[1:3]) *)
@@ -147,7 +149,7 @@ Definition seg_term (dxr dxc : S) (opd : arr S) (i j : Z) (acc : S) (mt : arr S 
 Definition fit_seg (dxr dxc : S) (masks : list (arr S)) (opd : arr S) (ts : list (S * S * S)) : arr S :=
   mkArr (nr opd) (nc opd) (fun i j => fold_left (seg_term dxr dxc opd i j) (combine masks ts) k0).
 End Fit.
-Arguments zs {S}. Arguments ptt_unmasked {S}. Arguments ptt_masked {S}. Arguments tilt_part {S}.
+Arguments zs {S}. Arguments ramp_s {S}. Arguments ptt_unmasked {S}. Arguments ptt_masked {S}. Arguments tilt_part {S}.
 Arguments fit_mono {S}. Arguments fit_seg {S}. Arguments seg_term {S}.
 
 (* ---- executable fit on the rationals ---- *)
